@@ -23,8 +23,9 @@ type evRec struct {
 type recorder struct {
 	mu      sync.Mutex
 	evs     []evRec
-	mode    int // 0 free, 1 lagging consumer, 2 lagging producer, 3 random stop/go
+	mode    int // 0 free, 1 lagging consumer, 2 lagging producer, 3 random stop/go, 4 consumer holds a just-received buffer
 	rng     *Rng
+	attempt int // sends started (about-to-send events)
 	sent    int
 	recvd   int
 	waiting bool
@@ -34,6 +35,8 @@ func (rc *recorder) hook(id uintptr, kind int, arg uint64) {
 	rc.mu.Lock()
 	rc.evs = append(rc.evs, evRec{kind, arg})
 	switch kind {
+	case simdjson.VerifEvSend, simdjson.VerifEvSendTerm:
+		rc.attempt++
 	case simdjson.VerifEvSent, simdjson.VerifEvSentTerm:
 		rc.sent++
 	case simdjson.VerifEvRecv:
@@ -61,6 +64,22 @@ func (rc *recorder) hook(id uintptr, kind int, arg uint64) {
 		for time.Now().Before(deadline) {
 			rc.mu.Lock()
 			ahead := rc.sent - rc.recvd
+			rc.mu.Unlock()
+			if ahead >= 15 {
+				break
+			}
+			runtime.Gosched()
+		}
+	case mode == 4 && kind == simdjson.VerifEvRecv && arg != 0:
+		// the consumer has received buffer c and has not read its first entry yet: hold
+		// it until the producer has filled the channel behind it AND finished one more
+		// buffer (it is then blocked in the send of buffer c+15, the farthest the ring
+		// lets it run), or 3 ms have passed.  Anything the producer writes into a slot
+		// that is still live shows up as a wrong first index of buffer c.
+		deadline := time.Now().Add(3 * time.Millisecond)
+		for time.Now().Before(deadline) {
+			rc.mu.Lock()
+			ahead := rc.attempt - rc.recvd
 			rc.mu.Unlock()
 			if ahead >= 15 {
 				break
@@ -208,7 +227,7 @@ func bigDoc(r *Rng, nbuf int, bad int) []byte {
 
 func checkC07(c *Ctx) {
 	r := c.Rng
-	c.Ev.Coverage.Rule = "documents above the 8 KiB threshold needing 2..200 index buffers (valid, stage-1-invalid and stage-2-invalid at a chosen point) parsed under forced schedules through the verif event hooks: free running, lagging consumer (producer driven into the full channel), lagging producer (consumer blocked in receive), random stop/go at every event, GOMAXPROCS 1/2/4/16. Each recorded event trace is linearised and replayed through the Coq transition system (extracted Ring.run): every event must be enabled, every visited state Safe, consumed in order; the outcome must equal the schedule-free model/spec outcome. non-trivial = trace with >= 2 buffers accepted by the model; distinct = by (document, mode, trace)"
+	c.Ev.Coverage.Rule = "documents above the 8 KiB threshold needing 2..200 index buffers (valid, stage-1-invalid and stage-2-invalid at a chosen point) parsed under forced schedules through the verif event hooks: free running, lagging consumer (producer driven into the full channel), lagging producer (consumer blocked in receive), random stop/go at every event, consumer holding each just-received buffer until the producer is 15 buffers ahead; GOMAXPROCS 1/2/4/16. Each recorded event trace is linearised and replayed through the Coq transition system (extracted Ring.run): every event must be enabled, every visited state Safe, consumed in order; the outcome must equal the schedule-free model/spec outcome. non-trivial = trace with >= 2 buffers accepted by the model; distinct = by (document, mode, trace)"
 	capN, slots := 14, 16
 	if pj, err := simdjson.Parse([]byte(`{"a":1}`), nil); err == nil {
 		cc, _, _ := simdjson.VerifChanState(pj)
@@ -242,21 +261,28 @@ func checkC07(c *Ctx) {
 		if i%3 == 1 {
 			bad = 1 + r.Intn(nb*T_INDEX)
 		}
-		if i%5 == 2 {
+		if i%5 == 4 {
+			// schedule 4 needs more buffers than the ring has slots, mostly valid documents
+			nb = 18 + r.Intn(40)
+			if i%10 == 4 {
+				bad = 0
+			}
+		}
+		if i%7 == 2 {
 			// an early failure in a document that still needs far more buffers than
 			// the ring has slots: the failing stage must keep the other one moving
 			nb = 20 + r.Intn(60)
 			bad = 1 + r.Intn(3*T_INDEX)
 		}
 		doc := bigDoc(r, nb, bad)
-		mode := i % 4
-		procs := []int{1, 2, 4, 16}[(i/4)%4]
+		mode := i % 5
+		procs := []int{1, 2, 4, 16}[(i/5)%4]
 		runtime.GOMAXPROCS(procs)
 		rc := &recorder{mode: mode, rng: r.Fork()}
 		simdjson.VerifEventHook = rc.hook
 		setKernel(hwAVX512 && i%2 == 0)
 		done := make(chan ParseOut, 1)
-		go func() { done <- implParse(doc, false, i%5 != 0, nil) }()
+		go func() { done <- implParse(doc, false, i%3 != 0, nil) }()
 		var out ParseOut
 		select {
 		case out = <-done:
